@@ -6,6 +6,7 @@ pub mod c06;
 pub mod c07;
 pub mod c08;
 pub mod c09;
+pub mod c10;
 pub mod c11;
 pub mod c12;
 pub mod c13;
@@ -17,7 +18,7 @@ pub mod c20;
 use crate::core::PropSpec;
 
 pub fn all_specs() -> Vec<PropSpec> {
-    vec![c01::spec(), c02::spec(), c04::spec(), c05::spec(), c06::spec(), c07::spec(), c08::spec(), c09::spec(), c11::spec(), c12::spec(), c13::spec(), c15::spec(), c16::spec(), c17::spec(), c20::spec()]
+    vec![c01::spec(), c02::spec(), c04::spec(), c05::spec(), c06::spec(), c07::spec(), c08::spec(), c09::spec(), c10::spec(), c11::spec(), c12::spec(), c13::spec(), c15::spec(), c16::spec(), c17::spec(), c20::spec()]
 }
 
 pub fn spec_for(id: &str) -> Option<PropSpec> {
